@@ -167,6 +167,46 @@ def run(rep):
             wit.append({'op': 'inst', 'ids': ids, 'plugs': [sx.pat_to_s(q) for q in plugs], 'pattern': sx.pat_to_s(p), 'rust': r,
                         'var': 0, 'plug': '', 'substitute_after_instantiating_the_parts': a, 'second_request': req,
                         'problem': 'instantiating a pending substitution differs from instantiating its parts and substituting'})
+    # oracle 4: the LEAVES of instantiation on the REAL Rust results (the textbook definition at its base case; the model is not
+    # consulted): a metavariable whose id is in the map becomes the FIRST plug listed for that id — whatever the plug is, another
+    # metavariable of the same number with other constraints included — or the instantiation is refused; every other leaf, and a
+    # metavariable that is not in the map, is unchanged.  The leaves are taken from the generated patterns (differing ones first).
+    def leaves(t, acc):
+        k = t[0]
+        if k in ('evar', 'svar', 'sym', 'mv'):
+            acc.append(t)
+        elif k in ('imp', 'app'):
+            leaves(t[1], acc); leaves(t[2], acc)
+        elif k in ('ex', 'mu'):
+            leaves(t[2], acc)
+        else:
+            leaves(t[1], acc); leaves(t[3], acc)
+        return acc
+    all_inst = [(m, r) for m, r in zip(meta[n_subst:], ra[n_subst:])]
+    all_inst.sort(key=lambda t: 0 if ('inst (%s) (%s) %s' % (' '.join(map(str, t[0][1])), ' '.join(map(sx.pat_to_s, t[0][2])), sx.pat_to_s(t[0][3]))) in differing else 1)
+    l4, m4, seen4 = [], [], set()
+    for (_, ids, plugs, p), _r in all_inst[:1500 if quick else 20000]:
+        for lf in leaves(p, [])[:6]:
+            req = 'inst (%s) (%s) %s' % (' '.join(map(str, ids)), ' '.join(map(sx.pat_to_s, plugs)), sx.pat_to_s(lf))
+            if req not in seen4:
+                seen4.add(req); l4.append(req); m4.append((ids, plugs, lf))
+    r4 = core.rust_h(l4) if l4 else []
+    leaf_checked = leaf_replaced = leaf_same_id_plug = 0
+    for (ids, plugs, lf), a in zip(m4, r4):
+        got = some_pat(a)
+        if got is None:
+            continue                      # refused (a constraint of the metavariable is not met by the plug): decided by C06/C12
+        leaf_checked += 1
+        if lf[0] == 'mv' and lf[1] in ids:
+            exp = plugs[ids.index(lf[1])]
+            leaf_replaced += 1
+            leaf_same_id_plug += (exp[0] == 'mv' and exp[1] == lf[1] and exp != lf)
+        else:
+            exp = lf
+        if got != exp:
+            wit.append({'op': 'inst', 'ids': ids, 'plugs': [sx.pat_to_s(q) for q in plugs], 'pattern': sx.pat_to_s(lf), 'rust': a,
+                        'var': 0, 'plug': '', 'expected': sx.pat_to_s(exp),
+                        'problem': 'instantiating a leaf: a metavariable in the map must become its (first) plug, every other leaf stays'})
     # ---- Python: ninst / nesubst / nssubst vs the model, and the laws on the real code
     plines, pmeta = [], []
     for _ in range(N):
@@ -200,7 +240,7 @@ def run(rep):
                 'patterns with nested and partial notation; law requests (transparency of instantiate, composition) on '
                 'shape-clean inputs run on the real Python code' % (3 if quick else 4),
         'programs': total, 'disagreements_checked': len(dis) + len(pdis) + len(law_bad),
-        'oracle_textbook_checked': tb_checked, 'oracle_semantic_checked': sem_checked, 'oracle_distribution_checked': dist_checked,
+        'oracle_textbook_checked': tb_checked, 'oracle_semantic_checked': sem_checked, 'oracle_distribution_checked': dist_checked, 'oracle_leaf_checked': leaf_checked, 'oracle_leaf_replaced': leaf_replaced, 'oracle_leaf_plug_is_same_numbered_metavariable': leaf_same_id_plug,
         'samples': [lines[0], lines[n_subst - 1], lines[-1], plines[0], law_lines[0], law_lines[1]],
     })
     for w in wit[:5]:
